@@ -144,7 +144,31 @@ def _objs(case, r):
     return {"kinds": kinds, "v": out}
 
 
+def _impl_frames3(case):
+    """detector (pix) -> focal (arcsec) -> sky (deg), unit-free transforms: WCS.transform between frames with quantity inputs"""
+    cx, cy, s1, lon0, lat0 = case["p"]
+    det = cf.Frame2D(name="detector", unit=(u.pix, u.pix))
+    foc = cf.Frame2D(name="focal", unit=(u.arcsec, u.arcsec))
+    sky = cf.CelestialFrame(reference_frame=coord.ICRS(), unit=(u.deg, u.deg), name="sky")
+    t1 = models.Shift(-cx) & models.Shift(-cy) | models.Scale(s1) & models.Scale(s1)
+    t2 = models.Scale(1.0 / 3600.0) & models.Scale(1.0 / 3600.0) | models.Shift(lon0) & models.Shift(lat0)
+    w = gw.WCS([(det, t1), (foc, t2), (sky, None)])
+    fx, fy = case["focal"]
+    alt = u.Unit(case["alt"])
+    qx, qy = (fx * u.arcsec).to(alt), (fy * u.arcsec).to(alt)
+    res = {}
+    for to in ("sky", "detector"):
+        res["bare_" + to] = _try(lambda: _vals(w.transform("focal", to, fx, fy)))
+        res["qty_" + to] = _try(lambda: _vals(w.transform("focal", to, qx, qy)))
+    px = [(fx / s1 + cx), (fy / s1 + cy)]
+    res["pix_qty_to_focal"] = _try(lambda: _vals(w.transform("detector", "focal", px[0] * u.pix, px[1] * u.pix)))
+    res["pix_bare_to_focal"] = _try(lambda: _vals(w.transform("detector", "focal", px[0], px[1])))
+    return res
+
+
 def impl(case):
+    if case["family"] == "frames3":
+        return _impl_frames3(case)
     wq = _build(case, True)
     wt = _build(case, False)
     pix = [np.array(p) if case["array"] else p[0] for p in case["pix"]]
@@ -189,6 +213,11 @@ def impl(case):
         r["inv_obj"] = _try(lambda: _vals(w.invert(*objs())))
         r["w2p_obj"] = _try(lambda: _vals(w.world_to_pixel(*objs())))
         r["inv_units"] = _try(lambda: _vals(w.invert(*altq, with_units=True)))
+        if nm == "q" and case["family"] == "spectral" and not case.get("mixed") and UNITS[ax[0]["world"]][0] == 2:
+            # keywords that are not the iterative solver's own go through to the analytic backward transform: a wavelength axis asked
+            # for by frequency with a spectral equivalency
+            nu = [a_.to(u.Hz, equivalencies=u.spectral()) for a_ in alt]
+            r["inv_equiv"] = _try(lambda: _vals(w.invert(*nu, equivalencies={w.backward_transform.inputs[0]: u.spectral()})))
         # pixel quantities in a wrong unit, all / first only / last only
         bad = u.Unit(case["bad_pix_unit"])
         for tag, args in (("all", [p * bad for p in pix]), ("first", [pix[0] * bad] + list(pix[1:])), ("last", list(pix[:-1]) + [pix[-1] * bad]),
@@ -207,6 +236,16 @@ def _close(a, b, tol=1e-11, absol=1e-9):
 
 def oracle(case, res):
     out = []
+    if case["family"] == "frames3":
+        for a, b, what in (("bare_sky", "qty_sky", "focal -> sky"), ("bare_detector", "qty_detector", "focal -> detector"),
+                           ("pix_bare_to_focal", "pix_qty_to_focal", "detector -> focal")):
+            ra, rb = res[a], res[b]
+            if "err" in ra or "err" in rb:
+                out.append(("transform", "WCS.transform %s: bare numbers give %s, quantities in %s give %s" % (what, ra.get("v", ra.get("msg")), case["alt"], rb.get("v", rb.get("msg")))))
+            elif not all(_close(x, y) for x, y in zip(ra["v"], rb["v"])):
+                out.append(("transform", "WCS.transform %s: bare numbers in the frame's unit give %s, the same point as quantities in %s gives %s" %
+                            (what, ra["v"], case["alt"], rb["v"])))
+        return out
     q, t = res["q"], res["t"]
     n = len(case["axes"])
     for nm in ("q", "t"):
@@ -243,7 +282,7 @@ def oracle(case, res):
             out.append(("objects", "%s: twins build different kinds of objects %s vs %s" % (op, q[op]["kinds"], t[op]["kinds"])))
     # 3. every way of giving the world point inverts to the same pixels
     otol = max(ptol, 1e-5) if case.get("obj_sky", case.get("sky")) != case.get("sky") else ptol   # FK4 e-terms do not round-trip exactly
-    for op in ("inv_alt", "inv_frame_q", "inv_bare", "inv_obj", "w2p_obj", "inv_units"):
+    for op in ("inv_alt", "inv_frame_q", "inv_bare", "inv_obj", "w2p_obj", "inv_units", "inv_equiv"):
         for nm in ("q", "t"):
             r = res[nm].get(op)
             if r is None:
@@ -282,6 +321,8 @@ def _model_axes(case, twin):
 
 
 def request(case, res):
+    if case["family"] == "frames3":
+        return None
     if case["family"] == "tan" or case["array"] or "err" in res["q"]["p2wv"]:
         return None
     pix = [Fraction(p[0]) for p in case["pix"]]
@@ -344,11 +385,15 @@ def compare(case, res, resp):
 
 
 def nontrivial(case, res):
+    if case["family"] == "frames3":
+        return case["alt"] != "arcsec"
     return any(len({a["tout"], a["world"], a["alt"]}) > 1 for a in case["axes"])
 
 
 def stats(case, res, st):
     st["family_" + case["family"]] += 1
+    if case["family"] == "frames3":
+        return
     if case.get("mixed"):
         st["mixed_user_inverse"] += 1
     st["array" if case["array"] else "scalar"] += 1
@@ -385,6 +430,14 @@ def _axis(rng, dim, kind):
 
 
 def gen(rng, tier):
+    for _ in range(12 if tier == "quick" else 200):
+        yield {"family": "frames3", "p": [float(rng.randint(10, 500)), float(rng.randint(10, 500)), rng.choice([0.03125, 0.0625, 0.25]),
+                                          float(rng.randint(10, 300)), float(rng.randint(-60, 60))],
+               "focal": [rng.randint(-200, 200) / 4.0, rng.randint(-200, 200) / 4.0], "alt": rng.choice(["arcsec", "arcmin", "deg", "rad"])}
+    yield from _gen_main(rng, tier)
+
+
+def _gen_main(rng, tier):
     q = tier == "quick"
     for _ in range(60 if q else 1500):
         fam = rng.choice(["spectral", "spectral", "temporal", "generic", "sky", "sky", "cube", "cube", "tan"])
